@@ -1,5 +1,6 @@
 (* clientview_driver.ml — replays the sessions harness/src/bin/sched.rs observed at the clients'
-   transports (`trace.txt`: `<case> T <client> V <verdict> ; S <msg> ; R <msg> ; ...`) through the
+   transports (`trace.txt`: `<case> T <client> [P <minor>] V <verdict> ; S <msg> ; R <msg> ; ...`,
+   P = the protocol minor version that session negotiated, default argv 3) through the
    extracted acceptance automaton (clientview_model.ml: view0, replay_step) and compares the
    automaton's verdict with what the real `Client::run` did:
      real `ok`/`none` (returned Ok / still running): the automaton accepts every received message;
@@ -157,8 +158,15 @@ let () =
        match split_on_string " ; " line with
        | [] -> ()
        | head :: items ->
-           (match words head with
-            | case :: "T" :: client :: "V" :: verdict ->
+           let head_words =
+             match words head with
+             | case :: "T" :: client :: "P" :: minor :: "V" :: verdict ->
+                 Some (case, client, n_of_int (int_of_string minor), verdict)
+             | case :: "T" :: client :: "V" :: verdict -> Some (case, client, version, verdict)
+             | _ -> None
+           in
+           (match head_words with
+            | Some (case, client, version, verdict) ->
                 let real = String.concat " " verdict in
                 let v = ref (view0 version) in
                 let nrecv = ref 0 in
@@ -205,8 +213,8 @@ let () =
                   else if starts "pan msg_" real then (if starts "pan" !model && at_last then "AGREE" else "DISAGREE")
                   else "SKIP"
                 in
-                Printf.fprintf oc "%s %s %s real=%s model=%s recv=%d\n" res case client real !model !nrecv
-            | _ -> ())
+                Printf.fprintf oc "%s %s %s real=%s model=%s recv=%d ver=%d\n" res case client real !model !nrecv (int_of_n version)
+            | None -> ())
      done
    with End_of_file -> ());
   close_in ic;
